@@ -5,8 +5,10 @@ EXTENDS Lru, TLC, Json
 CONSTANTS Keys,     \* ordinary keys (symmetric)
           ZKeys,    \* {"z"}: the key of nine zero bytes, or {}
           D,        \* program length
-          Family    \* "mem" | "disk": which operation alphabet
-VARIABLE hist
+          Family,   \* "mem" | "disk" | "recap": which operation alphabet
+          ReCaps    \* capacities the directory is reopened with (family "recap")
+VARIABLES hist,
+          cap       \* the capacity in force (Cap until a reopen with another capacity)
 
 AllKeys == Keys \cup ZKeys
 
@@ -23,16 +25,29 @@ OpsDisk ==
   {[op |-> "load", g |-> g] : g \in 1..2} \cup
   {[op |-> "run_cycle", limit |-> n] : n \in 0..1}
 
-Ops == IF Family = "mem" THEN OpsMem ELSE OpsDisk
+\* the directory is reopened by a tracker of another capacity: a small alphabet around checkpoint / reopen / load
+OpsRecap ==
+  {[op |-> "touch", k |-> k] : k \in Keys} \cup
+  {[op |-> "checkpoint"], [op |-> "load", g |-> 1], [op |-> "run_cycle", limit |-> 0]} \cup
+  {[op |-> "reopen", cap |-> c] : c \in ReCaps}
 
-MCInit == Init /\ hist = <<>>
-MCNext == \E e \in Ops : Do(e) /\ hist' = Append(hist, e)
+Ops == IF Family = "mem" THEN OpsMem ELSE IF Family = "disk" THEN OpsDisk ELSE OpsRecap
+
+MCInit == Init /\ hist = <<>> /\ cap = Cap
+MCDo(e) == LET r == Apply(s, cap, e) IN s' = r.st /\ res' = r.res /\ cap' = CapAfter(cap, e)
+MCNext == \E e \in Ops : MCDo(e) /\ hist' = Append(hist, e)
 
 Constr == Len(hist) <= D
 Sym == Permutations(Keys)
 
+\* constant capacity (families "mem", "disk": TLC evaluates the key sequences once)
 TouchAll == \A k \in AllKeys : TouchMRU(k)
 CapKept  == \A ks \in {q \in UNION {[1..n -> AllKeys] : n \in 0..Cap} : TRUE} : NoCapacityLoss(ks)
+\* the capacity in force (family "recap")
+BoundedNow  == BoundedC(cap)
+TouchAllNow == \A k \in AllKeys : TouchMRUC(cap, k)
+CapKeptNow  == \A ks \in {q \in UNION {[1..n -> AllKeys] : n \in 0..cap} : TRUE} : NoCapacityLossC(cap, ks)
+SaveLoadNow == SaveLoadIdC(cap)
 
 Emit == Len(hist) = D => PrintT(<<"PROGRAM", ToJson([cap |-> Cap, ops |-> hist])>>)
 =============================================================================
